@@ -501,10 +501,98 @@ def run_script(sc, prio, seed):
     return viol, w
 
 
+def run_shared_decorator(res, c):
+    """ONE deduplicate() object (no custom keygetter) decorating several functions with DIFFERENT signatures, in
+    every decoration order: each function's calls are normalised with its own signature."""
+    import asynq
+    from asynq import asynq as A
+    from asynq.tools import DeduplicateDecorator, deduplicate
+    from .. import harness
+
+    specs = {
+        "first": ("a, b=1", lambda a, b=1: (a, b)),
+        "second": ("x, y=2, z=3", lambda x, y=2, z=3: (x, y, z)),
+        "third": ("b, a=0", lambda b, a=0: (b, a)),
+        "fourth": ("p, *, q=4", lambda p, *, q=4: (p, q)),
+    }
+    # (name, [equivalent spellings of ONE call], [a DIFFERENT call that looks alike under another signature])
+    probes = [
+        ("second", [((1,), {}), ((1, 2), {}), ((1,), {"y": 2}), ((), {"x": 1, "z": 3})], [((1, 3), {})]),
+        ("third", [((7, 3), {}), ((7,), {"a": 3}), ((), {"a": 3, "b": 7})], [((3, 7), {}), ((), {"a": 7, "b": 3})]),
+        ("first", [((5,), {}), ((5, 1), {}), ((), {"a": 5})], [((5, 2), {})]),
+        ("fourth", [((9,), {}), ((9,), {"q": 4})], [((9,), {"q": 5})]),
+    ]
+    for order in itertools.permutations(sorted(specs)):
+        asynq.scheduler.reset()
+        DeduplicateDecorator.tasks.clear()
+        rt = harness.HarnessRT({"nodes": [], "kinds": 1})
+        dd = deduplicate()
+        runs = []
+        fn = {}
+        ctr = itertools.count()
+
+        def make(name):
+            norm = specs[name][1]
+            src = "def %s(%s):\n    runs.append((%r, norm(%s)))\n    yield HItem(rt, 0, 'sd%%d' %% next(ctr), ('sd', next(ctr)))\n    return (%r, norm(%s))\n" % (
+                name,
+                specs[name][0],
+                name,
+                ", ".join(p.split("=")[0].strip().lstrip("*").strip() + "=" + p.split("=")[0].strip() for p in specs[name][0].replace("*, ", "").split(", ")),
+                name,
+                ", ".join(p.split("=")[0].strip() + "=" + p.split("=")[0].strip() for p in specs[name][0].replace("*, ", "").split(", ")),
+            )
+            env = {"runs": runs, "norm": norm, "HItem": harness.HItem, "rt": rt, "ctr": ctr, "next": next}
+            exec(src, env)
+            return dd(A()(env[name]))
+
+        for name in order:
+            fn[name] = make(name)
+        rt.attach()
+        try:
+            for name, same, other in probes:
+                del runs[:]
+
+                @A()
+                def gather():
+                    ts = [fn[name].asynq(*a, **k) for a, k in same]
+                    os_ = [fn[name].asynq(*a, **k) for a, k in other]
+                    vs = yield ts + os_
+                    return ts, os_, vs
+
+                try:
+                    ts, os_, vs = gather()
+                except BaseException as e:
+                    res["violations"].append({"oracle": "shared-decorator-object", "mechanism": "shared-decorator-object/crashed", "detail": {"order": list(order), "function": name, "exc": repr(e)[:160]}, "case": {"mode": "shared_deco", "cases": [0, 1]}})
+                    break
+                res["evaluations"] += 1
+                c["calls_through_one_shared_deduplicate_object"] = c.get("calls_through_one_shared_deduplicate_object", 0) + len(ts) + len(os_)
+                probs = []
+                if any(t is not ts[0] for t in ts):
+                    probs.append("spellings of one call got different tasks")
+                if any(o is ts[0] for o in os_):
+                    probs.append("a different call shared the task")
+                want_same = (name, specs[name][1](*same[0][0], **same[0][1]))
+                if any(v != want_same for v in vs[: len(ts)]):
+                    probs.append("wrong value for the shared call")
+                for (a, k), v in zip(other, vs[len(ts) :]):
+                    if v != (name, specs[name][1](*a, **k)):
+                        probs.append("a different call received another call's value")
+                if len(runs) != 1 + len(set(repr(specs[name][1](*a, **k)) for a, k in other)):
+                    probs.append("body ran %d times" % len(runs))
+                if probs and len(res["violations"]) < 8:
+                    res["violations"].append(
+                        {"oracle": "shared-decorator-object", "mechanism": "shared-decorator-object/" + probs[0].replace(" ", "-"), "detail": {"decoration_order": list(order), "function": name, "signature": specs[name][0], "problems": probs, "body_runs": runs[:6]}, "case": {"mode": "shared_deco", "cases": [0, 1]}}
+                    )
+        finally:
+            rt.detach()
+            DeduplicateDecorator.tasks.clear()
+        res["nontrivial"].append(hash(("sd", order)) & 0xFFFFFFFFFFFF)
+
+
 def plan(tier, seed, build, scale):
     n = int((1600 if tier == "quick" else 120000) * scale)
     per = max(1, n // (8 if tier == "quick" else 64))
-    units = [{"mode": "generations", "n": 200 if tier == "quick" else 3000, "cases": [0, 1]}]
+    units = [{"mode": "generations", "n": 200 if tier == "quick" else 3000, "cases": [0, 1]}, {"mode": "shared_deco", "cases": [0, 1]}]
     a = 0
     while a < n:
         units.append({"cases": [a, min(n, a + per)]})
@@ -515,6 +603,10 @@ def plan(tier, seed, build, scale):
 def run_unit(unit, progress):
     res = tl.new_result()
     c = res["counters"]
+    if unit.get("mode") == "shared_deco":
+        progress(0)
+        run_shared_decorator(res, c)
+        return res
     if unit.get("mode") == "generations":
         # "thread" is part of the key: a new thread never shares with a finished one, even when the OS re-issues
         # the finished thread's identifier
@@ -579,7 +671,7 @@ def classify(v, sc):
 
 def reach(c, tier):
     out = []
-    for k in ("calls_while_first_in_flight_and_blocked", "calls_sharing_an_in_flight_task", "reruns_after_completion", "reruns_after_dirty", "calls_from_inside_running_body_unconstrained"):
+    for k in ("calls_while_first_in_flight_and_blocked", "calls_sharing_an_in_flight_task", "reruns_after_completion", "reruns_after_dirty", "calls_from_inside_running_body_unconstrained", "calls_through_one_shared_deduplicate_object", "requests_by_tasks_the_suspended_body_created", "dirty_calls_from_the_running_body_itself"):
         if not c.get(k):
             out.append("%s is zero" % k)
     return out
